@@ -110,6 +110,10 @@ impl Drop for MemoryReservation<'_> {
     fn drop(&mut self) {
         if self.amount != 0 {
             self.usage.fetch_sub(self.amount, Ordering::Relaxed);
+            #[cfg(feature = "verif")]
+            if crate::verif::flag("mem_points") {
+                crate::verif::point("mem_rolled_back", self.amount as u64, 0);
+            }
         }
     }
 }
